@@ -188,9 +188,16 @@ def check(case):
   return r
 
 
+ABORT_TEMPLATES = ['plain3', 'group', 'subtest', 'start+plain']
+
+
 def plan(tier, seed):
   n = 300 if tier == 'quick' else 6000
-  return [{'kind': 'hyp', 'name': 'hyp%d' % i, 'hseed': seed * 1000 + i, 'n': n} for i in range(16)]
+  jobs = [{'kind': 'hyp', 'name': 'hyp%d' % i, 'hseed': seed * 1000 + i, 'n': n} for i in range(16)]
+  # the same completeness predicate with an abort injected at every yield point of a scheduled run (engine of C04)
+  for t in ABORT_TEMPLATES:
+    jobs.append({'kind': 'abort-sweep', 'name': 'abort.%s' % t, 'template': t, 'stride': 4 if tier == 'quick' else 1, 'offset': seed % 4 if tier == 'quick' else 0})
+  return jobs
 
 
 def run_job(job, acct):
@@ -199,8 +206,27 @@ def run_job(job, acct):
     from vf import runner  # pylint: disable=g-import-not-at-top
     runner.run_regress(sys.modules[__name__], job, acct)
     return
+  if job['kind'] == 'abort-sweep':
+    from vf.props import c04  # pylint: disable=g-import-not-at-top
+    c04.setup_lines()
+    base = {'template': job['template'], 'via': 'thread', 'plan': {}}
+    r0, s0 = c04.check(base)
+    for k in range(job['offset'], s0.k, job['stride']):
+      case = dict(base, plan={str(k): ['wake', 'aborter0']})
+      r, _ = c04.check(case)
+      acct.case({'abort_sweep': case}, r.nontrivial, ['abort-sweep', 'template:' + job['template']])
+      for sig, detail in r.violations:
+        if sig.startswith('C04/incomplete-record') or sig.startswith('C04/callbacks-called') or sig == 'C04/return-value':
+          sig9 = sig.replace('C04/', 'C09/abort/')
+          (acct.known if sig9 in known else acct.violation)(sig9, {'abort_sweep': case}, detail)
+    return
   hyp.search(acct, cases(), check, seed=job['hseed'], max_examples=job['n'], known=known)
 
 
 def replay(case):
+  if 'abort_sweep' in case:
+    from vf.props import c04  # pylint: disable=g-import-not-at-top
+    c04.setup_lines()
+    return [(s.replace('C04/', 'C09/abort/'), d) for s, d in c04.check(case['abort_sweep'])[0].violations
+            if s.startswith('C04/incomplete-record') or s.startswith('C04/callbacks-called') or s == 'C04/return-value']
   return check(case).violations
